@@ -196,6 +196,8 @@ impl<'a, C> ParseState<'a, C> {
         self.env = ParseState::_build_env(input);
         self.len_env = self.env.len();
         self.head = head;
+        // 清空上一次解析残留的「中间解析结果」
+        self.mid_result = MidParseResult::new();
     }
 
     /// 重置状态
